@@ -42,8 +42,16 @@ try:
             print(name, 'STALE (patch does not apply to HEAD any more)', flush=True)
             summary.append((name, 'STALE'))
             continue
-        rc, out = sh(['/venv/bin/python', os.path.join(HERE, 'run_check.py'), meta['property'], 'quick'], env=dict(os.environ, VERIF_REPO=WT))
-        verdict = 'CAUGHT' if rc == 1 and 'VIOLATION property=' in out else ('HARNESS-ERROR' if rc == 2 else 'MISSED')
+        # normally the property's own check; a seed recorded as caught only by other checks is re-run with those
+        checks = [meta['property']] if meta['property'] in meta.get('caught_by', [meta['property']]) else list(meta.get('caught_by', []))
+        verdict = 'MISSED'
+        for c in checks:
+            rc, out = sh(['/venv/bin/python', os.path.join(HERE, 'run_check.py'), c, 'quick'], env=dict(os.environ, VERIF_REPO=WT))
+            if rc == 1 and 'VIOLATION property=' in out:
+                verdict = 'CAUGHT' + ('' if c == meta['property'] else ' (by %s)' % c)
+                break
+            if rc == 2:
+                verdict = 'HARNESS-ERROR'
         print(name, verdict, flush=True)
         summary.append((name, verdict))
 finally:
